@@ -165,11 +165,55 @@ std::string printConnections(const ComponentMap &componentMap, const VariableMap
     return connections;
 }
 
+/**
+ * @brief Remove the white space that follows a '>' and the white space that precedes a '<'.
+ *
+ * Done by hand rather than with a regular expression: the recursion depth of @c std::regex_replace
+ * grows with the length of a run of white space, and a long run exhausts the stack.
+ */
+std::string removeWhitespaceAroundTags(const std::string &in)
+{
+    static const std::string whitespace = " \t\n\v\f\r";
+    std::string afterCleaned;
+    afterCleaned.reserve(in.size());
+    size_t i = 0;
+    while (i < in.size()) {
+        afterCleaned += in[i];
+        if (in[i] == '>') {
+            ++i;
+            while ((i < in.size()) && (whitespace.find(in[i]) != std::string::npos)) {
+                ++i;
+            }
+        } else {
+            ++i;
+        }
+    }
+
+    std::string out;
+    out.reserve(afterCleaned.size());
+    i = 0;
+    while (i < afterCleaned.size()) {
+        if (whitespace.find(afterCleaned[i]) != std::string::npos) {
+            size_t j = i;
+            while ((j < afterCleaned.size()) && (whitespace.find(afterCleaned[j]) != std::string::npos)) {
+                ++j;
+            }
+            if ((j == afterCleaned.size()) || (afterCleaned[j] != '<')) {
+                out.append(afterCleaned, i, j - i);
+            }
+            i = j;
+        } else {
+            out += afterCleaned[i];
+            ++i;
+        }
+    }
+
+    return out;
+}
+
 std::string Printer::PrinterImpl::printMath(const std::string &math)
 {
     static const std::string wrapElementName = "math_wrap_as_single_root_element";
-    static const std::regex before(">[\\s\n\t]*");
-    static const std::regex after("[\\s\n\t]*<");
     static const std::regex xmlDeclaration(R"|(<\?xml[[:space:]]+version=.*\?>)|");
 
     XmlDocPtr xmlDoc = std::make_shared<XmlDoc>();
@@ -186,8 +230,7 @@ std::string Printer::PrinterImpl::printMath(const std::string &math)
             childNode = childNode->next();
         }
         // Clean whitespace in the math.
-        result = std::regex_replace(result, before, ">");
-        return std::regex_replace(result, after, "<");
+        return removeWhitespaceAroundTags(result);
     } else {
         for (size_t i = 0; i < xmlDoc->xmlErrorCount(); ++i) {
             auto issue = Issue::IssueImpl::create();
